@@ -256,7 +256,20 @@ let net_obs (f : string list) =
       i_rt := rt_run !i_rt (List.filter_map snd parsed);
       (* the router decided by itself whether to run fibUpdate: at quiescence installed must equal desired *)
       fib_check_mirror "-after-event";
-      if show_rt !m_rt <> show_rt !i_rt then diverge "rt" (show_rt !m_rt) (show_rt !i_rt)
+      if show_rt !m_rt <> show_rt !i_rt then diverge "rt" (show_rt !m_rt) (show_rt !i_rt);
+      (* failures in their own right, whatever the (possibly corrupted) tables prescribe: a route on face 0 or on a
+         face no current neighbour uses; a reachable RIB entry whose next hop is not a current neighbour *)
+      let faces = List.map snd !t_nbr in
+      List.iter (fun ((p, f), c) ->
+        if f = N0 || not (List.mem f faces) then
+          oracle "route-on-unknown-face" (Printf.sprintf "prefix %s registered on face %s (cost %s); faces of current neighbours: %s"
+            (dec_of_n p) (dec_of_n f) (dec_of_n c) (String.concat "," (List.map dec_of_n faces)))) !i_rt;
+      let nbrs = List.map fst !t_nbr in
+      List.iter (fun e ->
+        if e.re_name <> !t_me && N.ltb e.re_l1 cost_infinity && not (List.mem e.re_nh1 nbrs) then
+          oracle "rib-next-hop-not-a-neighbour" (Printf.sprintf "destination %s best next hop %s is not in the neighbour table" (dec_of_n e.re_name) (dec_of_n e.re_nh1));
+        if e.re_name <> !t_me && N.ltb e.re_l2 cost_infinity && not (List.mem e.re_nh2 nbrs) then
+          oracle "rib-next-hop-not-a-neighbour" (Printf.sprintf "destination %s second next hop %s is not in the neighbour table" (dec_of_n e.re_name) (dec_of_n e.re_nh2))) !t_rib
   | ["fib"; np; nn; l] ->
       let i = String.concat " " [np; nn; l] in
       let m = show_fibst !m_fib in
